@@ -311,6 +311,9 @@ def validate_trace_file(ctx, module, cfg, path, start_prefix='{"e":"Cfg"', timeo
     validation continues with the runs after a rejected one."""
     with open(path) as f:
         lines = [l.rstrip("\n") for l in f if l.strip()]
+    # a run cut short by a crash of the harness (reported separately) is not validated
+    last = max([i for i, l in enumerate(lines) if l.startswith('{"e":"End') or l.startswith('{"e":"Abandon')] or [-1])
+    lines = lines[:last + 1]
     starts = [i for i, l in enumerate(lines) if l.startswith(start_prefix)]
     if not starts:
         return 0, 0, []
